@@ -41,8 +41,10 @@ const chainID = "c09"
 
 // ---- replayable description of one case ----------------------------------------------------------
 
-// Seg is a run of blobs of one class: H i (admitted header i), D i (admitted data i), E (signed data
-// without txs), N i (signed data i without Metadata), J k (junk of kind k); junk runs may be long.
+// Seg is a run of blobs of one class: H i (signed header i), D i (signed data i), E (signed data without
+// txs), N i (signed data i without Metadata), J k (junk of kind k); junk runs may be long.  Items i below
+// nHdr / nData are the proposer's own; the ones above are forgeries (foreign key, proposer's address
+// claimed), which the code rejects since "fix: bind the signer's address to the signer's public key".
 type Seg struct {
 	C string `json:"c"`
 	I int    `json:"i,omitempty"`
@@ -71,6 +73,8 @@ type Replay struct {
 	SeenD   []int    `json:"seen_d"`
 	DA      []Height `json:"da"`      // heights boot, boot+1, ...
 	History []string `json:"history"` // "signal" | "proc"
+	// Backpressure: instead of a scripted history, the back-pressure scenario (see runBackpressure)
+	Backpressure bool `json:"backpressure,omitempty"`
 }
 
 func (rp *Replay) boot() uint64 {
@@ -83,7 +87,7 @@ func (rp *Replay) boot() uint64 {
 // ---- pool: real keys, real signed headers / data, junk ----------------------------------------------
 
 const (
-	nHdr      = 4 // genuine headers 0..3; 4,5 = forgeries that claim the proposer's address (admitted by the code)
+	nHdr      = 4 // genuine headers 0..3; 4,5 = forgeries that claim the proposer's address (junk for the code)
 	nHdrAll   = 6
 	nData     = 4 // genuine data 0..3; 4 = forgery claiming the proposer's address
 	nDataAll  = 5
@@ -619,6 +623,163 @@ func runCase(t *testing.T, p *pool, rp *Replay) *caseResult {
 	return res
 }
 
+// ---- back-pressure scenario ---------------------------------------------------------------------------
+//
+// More genuine blobs than the event channels hold (cap(headerInCh) = cap(dataInCh) = 10000) are put on
+// three DA heights; the real RetrieveLoop is woken with NO consumer on the channels and runs until it
+// blocks; only then the channels are drained (the blocked send continues).  Oracle: every genuine blob
+// was handed over exactly once and in DA order, and at the moment the loop was blocked the cursor had not
+// passed a height whose blobs were not all handed over.  This is outside the Coq model (which has no
+// channel capacity): oracle only.
+func runBackpressure(t *testing.T, p *pool, rp *Replay) (viol, what []string, stats map[string]int) {
+	stats = map[string]int{}
+	fail := func(sig, w string) {
+		for _, s := range viol {
+			if s == sig {
+				return
+			}
+		}
+		viol = append(viol, sig)
+		what = append(what, w)
+	}
+	r := caseRng(rp.Seed, rp.Case+7777)
+	layout := [][]Seg{}
+	counts := []int{6300 + r.Intn(900), 8300 + r.Intn(900), 900 + r.Intn(300)}
+	for hi, n := range counts {
+		var segs []Seg
+		for i := 0; i < n; i++ {
+			switch {
+			case hi == 1 && i%2 == 1:
+				segs = append(segs, Seg{C: "D", I: r.Intn(nData)})
+			case hi == 2 && i%7 == 3:
+				segs = append(segs, Seg{C: "J", I: 1 + r.Intn(nJunkKind-1), N: 1})
+			case hi == 2:
+				segs = append(segs, Seg{C: "D", I: r.Intn(nData)})
+			default:
+				segs = append(segs, Seg{C: "H", I: r.Intn(nHdr)})
+			}
+		}
+		layout = append(layout, segs)
+	}
+	// height 1 gets enough extra data to overflow dataInCh as well (together with height 2)
+	for i := 0; i < 6500; i++ {
+		layout[1] = append(layout[1], Seg{C: "D", I: r.Intn(nData)})
+	}
+	const boot = 50
+	var wantH, wantD []evt
+	perH, perD := make([]int, len(layout)), make([]int, len(layout))
+	synctest.Test(t, func(t *testing.T) {
+		ctx, cancel := context.WithCancel(context.Background())
+		defer cancel()
+		da := &scriptDA{boot: boot, cur: map[uint64]*Out{}, limit: 1 << 30}
+		for k, segs := range layout {
+			bl := p.expand(segs)
+			da.heights = append(da.heights, bl)
+			da.outs = append(da.outs, []Out{{K: "ok"}})
+			for _, b := range bl {
+				if b.cls == "H" {
+					wantH = append(wantH, evt{b.id, boot + uint64(k)})
+					perH[k]++
+				}
+				if b.cls == "D" {
+					wantD = append(wantD, evt{b.id, boot + uint64(k)})
+					perD[k]++
+				}
+			}
+		}
+		da.used = make([]int, len(layout))
+		m, err := newManager(ctx, p, &Replay{Start: boot}, da)
+		if err != nil {
+			fail("harness-error", err.Error())
+			return
+		}
+		capH, capD := cap(m.VerifHeaderInCh()), cap(m.VerifDataInCh())
+		stats["cap-header-ch"], stats["cap-data-ch"] = capH, capD
+		stats["genuine-headers-on-da"], stats["genuine-data-on-da"] = len(wantH), len(wantD)
+		if len(wantH) <= capH || len(wantD) <= capD {
+			fail("harness-error", fmt.Sprintf("scenario too small for the channel capacities %d/%d", capH, capD))
+			return
+		}
+		dead := ""
+		done := make(chan struct{})
+		go func() {
+			defer close(done)
+			defer func() {
+				if x := recover(); x != nil {
+					dead = fmt.Sprint(x) + "\n" + firstFrames(string(debug.Stack()))
+				}
+			}()
+			m.RetrieveLoop(ctx)
+		}()
+		m.VerifRetrieveCh() <- struct{}{}
+		var gotH, gotD []evt
+		blockedRounds := 0
+		for round := 0; round < 200; round++ {
+			time.Sleep(5 * time.Second)
+			synctest.Wait() // the loop is idle, dead, or blocked in a channel send
+			cursor := m.VerifDAHeight()
+			lh, ld := len(m.VerifHeaderInCh()), len(m.VerifDataInCh())
+			if lh == capH || ld == capD {
+				blockedRounds++
+			}
+			// nothing may be lost up to here: everything of the heights below the cursor has been handed over
+			needH, needD := 0, 0
+			for k := range layout {
+				if boot+uint64(k) < cursor {
+					needH += perH[k]
+					needD += perD[k]
+				}
+			}
+			if len(gotH)+lh < needH || len(gotD)+ld < needD {
+				fail("cursor-passed-unhanded-height-under-backpressure", fmt.Sprintf("cursor %d: heights below it hold %d headers / %d data, but only %d / %d were handed over so far", cursor, needH, needD, len(gotH)+lh, len(gotD)+ld))
+			}
+			if lh == 0 && ld == 0 {
+				break
+			}
+			for i := 0; i < lh; i++ {
+				e := <-m.VerifHeaderInCh()
+				gotH = append(gotH, evt{p.hdrIDOf(e.Header.Hash().String()), e.DAHeight})
+			}
+			for i := 0; i < ld; i++ {
+				e := <-m.VerifDataInCh()
+				gotD = append(gotD, evt{p.dataIDOf(e.Data.DACommitment().String()), e.DAHeight})
+			}
+		}
+		stats["rounds-blocked-on-full-channel"] = blockedRounds
+		stats["headers-handed"], stats["data-handed"] = len(gotH), len(gotD)
+		if dead != "" {
+			fail("panic-under-backpressure", dead)
+		}
+		if blockedRounds == 0 && len(gotH) == len(wantH) && len(gotD) == len(wantD) {
+			fail("harness-error", "the channels never filled up: the scenario did not exercise back-pressure")
+		}
+		if msg := sameEvents(wantH, gotH); msg != "" {
+			fail("genuine-blob-dropped-under-backpressure", "headers: "+msg)
+		}
+		if msg := sameEvents(wantD, gotD); msg != "" {
+			fail("genuine-blob-dropped-under-backpressure", "data: "+msg)
+		}
+		if c := m.VerifDAHeight(); c != boot+uint64(len(layout)) {
+			fail("stalled-under-backpressure", fmt.Sprintf("after draining, the cursor is %d, want %d", c, boot+len(layout)))
+		}
+		cancel()
+		<-done
+	})
+	return
+}
+
+func sameEvents(want, got []evt) string {
+	if len(want) != len(got) {
+		return fmt.Sprintf("%d genuine blobs on the DA, %d events handed over", len(want), len(got))
+	}
+	for i := range want {
+		if want[i] != got[i] {
+			return fmt.Sprintf("event %d is %v, want %v (exactly once, in DA order)", i, got[i], want[i])
+		}
+	}
+	return ""
+}
+
 func firstFrames(s string) string {
 	var keep []string
 	for _, l := range strings.Split(s, "\n") {
@@ -779,15 +940,6 @@ func oracle(p *pool, rp *Replay, r *caseResult) {
 			if a.item != it || a.class != "success" {
 				continue
 			}
-			poisoned := false
-			for _, b := range content(a.h) {
-				if b.cls == "N" {
-					poisoned = true
-				}
-			}
-			if poisoned {
-				continue // the panic is reported above
-			}
 			for _, b := range content(a.h) {
 				if b.cls == "H" && b.id < nHdr && !seenH[b.id] {
 					wantH = append(wantH, evt{b.id, a.h})
@@ -907,7 +1059,7 @@ func genCase(r *rand.Rand, seed int64, c int, tier string) *Replay {
 			rp.SeenD = append(rp.SeenD, i)
 		}
 	}
-	poison := r.Intn(12) == 0 // a share of cases contains the blob class of the listed finding
+	poison := r.Intn(6) == 0 // a share of cases contains metadata-less signed data (the fixed finding's class)
 	nh := 1 + r.Intn(6)
 	if tier == "thorough" {
 		nh = 1 + r.Intn(12)
@@ -952,14 +1104,20 @@ func genCase(r *rand.Rand, seed int64, c int, tier string) *Replay {
 // ---- Coq terms ----------------------------------------------------------------------------------------------
 
 func segCoq(s Seg) string {
-	switch s.C {
-	case "H":
+	switch {
+	case s.C == "H" && s.I >= nHdr:
+		return "JN 100 1" // forged header claiming the proposer's address
+	case s.C == "D" && s.I >= nData:
+		return "JN 101 1" // forged data claiming the proposer's address
+	case s.C == "N" && s.I >= nData:
+		return "JN 102 1"
+	case s.C == "H":
 		return fmt.Sprintf("[BHeader %d]", s.I)
-	case "D":
+	case s.C == "D":
 		return fmt.Sprintf("[BData %d]", s.I)
-	case "E":
+	case s.C == "E":
 		return "[BEmptyData]"
-	case "N":
+	case s.C == "N":
 		return fmt.Sprintf("[BDataNoMeta %d]", s.I)
 	}
 	n := s.N
@@ -1143,6 +1301,8 @@ func TestVerif(t *testing.T) {
 				}
 			}
 		}
+		// one back-pressure scenario per run (oracle only; not part of the Coq cases)
+		jobs = append(jobs, &Replay{Seed: e.Seed, Case: 0, Backpressure: true})
 		for c := 0; c < e.N; c++ {
 			jobs = append(jobs, nil)
 		}
@@ -1158,6 +1318,19 @@ func TestVerif(t *testing.T) {
 		}
 		// the pool derives from (seed, case) only, so a shrunk history stays replayable
 		p := newPool(rand.New(rand.NewSource(rp.Seed*7919 + int64(rp.Case) + 17)))
+		if rp.Backpressure {
+			viol, what, stats := runBackpressure(t, p, rp)
+			res.Evaluations++
+			res.Count("case:back-pressure-scenario")
+			res.Extra["back_pressure_scenario"] = stats
+			for vi, sig := range viol {
+				if sig == "harness-error" {
+					t.Fatalf("harness error: %s", what[vi])
+				}
+				res.Violations = append(res.Violations, vgen.Violation{Signature: sig, What: what[vi], Case: ji, Replay: rp})
+			}
+			continue
+		}
 		cr := runCase(t, p, rp)
 		if cr.err != nil {
 			t.Fatalf("harness error: %v", cr.err)
@@ -1226,7 +1399,7 @@ func TestVerif(t *testing.T) {
 	}
 	res.Distribution["da-heights-scripted"] = heights
 	res.Distinct = len(distinct)
-	res.Rule = "real non-aggregator block.Manager (NewManager) on a scripted DA double; 1-6 (thorough 1-12) DA heights from max(stored, configured start), start heights from 0 to 2^62; per height 0-7 blobs or 100-500 blobs (several chunks, incl. exact multiples of 100) mixing real proposer-signed headers/data (ed25519), forgeries claiming the proposer's address, signed data without txs / without metadata, and 16 kinds of junk (empty, random, truncated genuine, absurd length fields, other message types, foreign / corrupted / missing signatures, foreign key types, undecodable keys, trailing garbage, text); per height 0-4 scripted fetch outcomes (listing error with plain / not-found / from-the-future / both texts, nil listing, error on chunk i, ok) or runs of 9-13 errors, then usually ok; histories of 1-6 items: wake-ups of the real RetrieveLoop under testing/synctest (80%) and direct calls of processNextDAHeaderAndData; some ids pre-marked seen. non-trivial = at least 3 DA calls and 2 heights; distinct = distinct Coq case terms"
+	res.Rule = "real non-aggregator block.Manager (NewManager) on a scripted DA double; 1-6 (thorough 1-12) DA heights from max(stored, configured start), start heights from 0 to 2^62; per height 0-7 blobs or 100-500 blobs (several chunks, incl. exact multiples of 100) mixing real proposer-signed headers/data (ed25519), forgeries (foreign key claiming the proposer's address, rejected), signed data without txs / without metadata (ignored), and 16 kinds of junk (empty, random, truncated genuine, absurd length fields, other message types, foreign / corrupted / missing signatures, foreign key types, undecodable keys, trailing garbage, text); per height 0-4 scripted fetch outcomes (listing error with plain / not-found / from-the-future / both texts, nil listing, error on chunk i, ok) or runs of 9-13 errors, then usually ok; histories of 1-6 items: wake-ups of the real RetrieveLoop under testing/synctest (80%) and direct calls of processNextDAHeaderAndData; some ids pre-marked seen. non-trivial = at least 3 DA calls and 2 heights; distinct = distinct Coq case terms"
 	res.Cases = len(cases)
 	header := "From Coq Require Import NArith List Bool.\nFrom Verif Require Import Model.Retriever Check.RetrieverCheck.\nOpen Scope N_scope."
 	path := filepath.Join(e.Out, "cases_C09.v")
